@@ -568,6 +568,10 @@ def rules(rep, facts):
     r9b_offset_values(rep, g, facts)
     if 'toml' in facts.crates and facts.has_body("<<toml::value::Value as serde::de::Deserialize<'de>>::deserialize::ValueVisitor as serde::de::Visitor<'de>>::visit_f64"):
         r10_visitor_identity(rep, facts)
+    # what a string decodes to is assembled piece by piece (content runs, escapes, trimmed line continuations): every piece parser has to consume
+    # exactly its ABNF production, or text meant to be trimmed becomes content (and vice versa) although the string as a whole is still accepted
+    from .rules_c01 import r10_regular_language
+    r10_regular_language(rep, g, a, only_prefix='strings::', rid='C02/R12')
     if 'toml_datetime' in facts.crates:
         # the serde route hands every date-time over as text and reads it back with Datetime::from_str: what that parser returns is what is decoded
         from .rules_c12 import r4_truncation
